@@ -149,7 +149,11 @@ def il_table(mod, il):
     return named, sorted(local), und
 
 
-def compare(ctx, src, res, what):
+def _nozero(t):
+    return {x[:4] for x in t[0]}, sorted(x[:2] for x in t[1]), t[2]
+
+
+def compare(ctx, src, res, what, dropzero=False):
     d = tempfile.mkdtemp(dir=ctx.wdir())
     try:
         path = os.path.join(d, "u.c")
@@ -199,6 +203,9 @@ def compare(ctx, src, res, what):
         res.fail = dict(sig="", msg="malformed IL: %s" % errs[:2], input=src)
         return False
     it = il_table(mod, p.out)
+    if dropzero:
+        # objects initialised with addresses: the object file holds zeros plus relocations, the IL a symbol reference
+        it, gt = _nozero(it), _nozero(gt)
     if it != gt:
         diff = []
         for nm, a, b in (("defined symbols", it[0], gt[0]), ("no-linkage objects", it[1], gt[1]), ("undefined references", it[2], gt[2])):
@@ -391,9 +398,37 @@ def input_check(case, ctx):
     return res
 
 
+# ---- hand-written units: thread-local objects whose initialisers make the compiler emit further (anonymous) objects ---------
+TLS_UNITS = [
+    "_Thread_local const char *name = \"x\";\nstatic _Thread_local int *slot = (int[]){ 1, 2 };\n_Thread_local int plain = 3;\nint use(void) { return name[0] + slot[0] + plain; }\n",
+    "static _Thread_local const char *tab[2] = { \"ab\", \"cd\" };\nconst char *other = \"ef\";\nint use(void) { return tab[1][0] + other[0]; }\n",
+    "_Thread_local struct { const char *s; int *p; } rec = { \"name\", (int[]){ 7 } };\nint after = 1;\nint use(void) { return rec.s[0] + *rec.p + after; }\n",
+    "int before = 2;\n_Thread_local char buf[4] = \"abc\";\n_Thread_local const char *p1 = \"abc\", *p2 = \"abc\";\nint use(void) { return buf[0] + p1[0] + p2[1] + before; }\n",
+    "void host(void) { static _Thread_local const char *ls = \"in\"; static const char *ns = \"out\"; (void)ls; (void)ns; }\n_Thread_local int t0;\nint use(void) { return t0; }\n",
+    "extern _Thread_local int te;\n_Thread_local int *pt;\nstatic int *np = (int[]){ 1 };\nint use(void) { return te + (pt != 0) + *np; }\n",
+]
+
+
+def tls_enum(ctx):
+    for i in range(len(TLS_UNITS)):
+        yield {"unit": i}
+
+
+def tls_check(case, ctx):
+    res = Result()
+    src = TLS_UNITS[case["unit"]]
+    ok = compare(ctx, src, res, "tls unit", dropzero=True)
+    if ok:
+        res.keys.append(sha(src))
+        res.labels.append("tls-unit-valid")
+    res.sample = {"tls-unit": src[:120]}
+    return res
+
+
 def sources(ctx):
     return [
         Source("input", input_check, enum=lambda ctx: iter(())),
         Source("histories", hist_check, enum=hist_enum, exhaustive=True),
+        Source("tls-units", tls_check, enum=tls_enum, exhaustive=True),
         Source("units", unit_check, strategy=lambda c: units(), examples={"quick": 400, "thorough": 10000}),
     ]
